@@ -535,14 +535,7 @@ func (x *Exec) lockOp(st *State, c *ssa.CallCommon, acquire, write bool, pos tok
 	if acquire {
 		x.nLock++
 		// symbolic counters of critical sections entered (all locks / write locks)
-		if cur, ok := st.ghost["lockSections"]; ok {
-			st.ghost["lockSections"] = intVal(tArith("+", cur.T, intLit(1)))
-		}
-		if write {
-			if cur, ok := st.ghost["writeSections"]; ok {
-				st.ghost["writeSections"] = intVal(tArith("+", cur.T, intLit(1)))
-			}
-		}
+
 		if mon != nil {
 			// entering the monitor: nothing is known about guarded state except the invariant
 			x.havocAllHeap(st, "lock")
@@ -564,6 +557,15 @@ func (x *Exec) lockOp(st *State, c *ssa.CallCommon, acquire, write bool, pos tok
 		st.ghost["$heldR"] = scalar(tTrue, nil)
 		if write {
 			st.ghost["$heldW"] = scalar(tTrue, nil)
+		}
+		// counters of critical sections entered (after the snapshot, so old() sees the value before this section)
+		if cur, ok := st.ghost["lockSections"]; ok {
+			st.ghost["lockSections"] = intVal(tArith("+", cur.T, intLit(1)))
+		}
+		if write {
+			if cur, ok := st.ghost["writeSections"]; ok {
+				st.ghost["writeSections"] = intVal(tArith("+", cur.T, intLit(1)))
+			}
 		}
 		return unitVal
 	}
